@@ -162,6 +162,8 @@ pub struct Rt {
     pub seam_live_blocks: Cell<i64>,
     /// a task asked for the execution to end (violation detected inside a task)
     pub stop: Cell<bool>,
+    /// print every shim operation (debugging aid, VERIF_TRACE=1)
+    pub trace: Cell<bool>,
 }
 
 impl Rt {
@@ -198,6 +200,7 @@ impl Rt {
             seam_live_bytes: Cell::new(0),
             seam_live_blocks: Cell::new(0),
             stop: Cell::new(false),
+            trace: Cell::new(false),
         }
     }
 
@@ -277,6 +280,7 @@ impl Rt {
 
     /// Check an address the crate is about to access against the freed set.
     pub fn check_addr(&self, addr: usize, what: &'static str) {
+        let _g = crate::galloc::NoAttr::new();
         let freed = self.freed.borrow();
         if let Some((start, blk)) = freed.range(..=addr).next_back() {
             if addr < start + blk.len.max(1) {
